@@ -40,7 +40,7 @@ theorem N2_DTAU_DF__ABAQUS (hc : c * c = 2) (h2 : (2:K) ≠ 0)
   generalize_ne hd0 => e0 he0
   generalize_ne hd2 => e2 he2
   (try (repeat' apply And.intro))
-  all_goals (first | rfl | (field_simp <;> (try simp only [← he0, ← he2]) <;> c23_field hc))
+  all_goals (first | rfl | (field_simp <;> (try simp only [← he0, ← he2]) <;> c23_fieldc hc))
 
 /-- `DTAU_DF ← DTAU_DDF` (2D): along every variation `δF = L F` the converted operator, applied to the
 rate of its kinematic variable, gives the rate of the Kirchhoff stress that reproduces the same Lie derivative of
@@ -61,7 +61,7 @@ theorem N2_DTAU_DF__DTAU_DDF (hc : c * c = 2) (h2 : (2:K) ≠ 0)
     c23_unfold
     generalize_ne hd0 => e0 he0
     (try (repeat' apply And.intro))
-    all_goals (first | rfl | (field_simp <;> (try simp only [← he0]) <;> c23_field hc))
+    all_goals (first | rfl | (field_simp <;> (try simp only [← he0]) <;> c23_fieldc hc))
   rw [key]
 
 /-- `DS_DF ← DS_DC` (2D): along every variation `δF = L F` the converted operator, applied to the
@@ -74,7 +74,7 @@ theorem N2_DS_DF__DS_DC (hc : c * c = 2) (h2 : (2:K) ≠ 0)
   have key : (act (Gen.N2_DS_DF__DS_DC_r c c3 fn D (tensv F0) (tensv (plane f0 f1 f2 f3 f4)) s) (M3.tens2 ((plane l0 l1 l2 l3 l4) * (plane f0 f1 f2 f3 f4))))
       = (act (rowsOf D i4 i4) (M3.mandel2 c (dC (plane f0 f1 f2 f3 f4) (plane l0 l1 l2 l3 l4)))) := by
     have hc0 : c ≠ 0 := c_ne_zero hc h2
-    c23_rat0 hc
+    c23_rat0c hc
   rw [key]
 
 /-- `DTAU_DF ← DPK1_DF` (2D): along every variation `δF = L F` the converted operator, applied to the
@@ -85,7 +85,7 @@ theorem N2_DTAU_DF__DPK1_DF (hc : c * c = 2) (h2 : (2:K) ≠ 0)
     lower (lamTau (plane f0 f1 f2 f3 f4) (M3.ofMandel c [s 0, s 1, s 2, s 3]) (plane l0 l1 l2 l3 l4) (M3.ofMandel c (act (Gen.N2_DTAU_DF__DPK1_DF_r c c3 fn D (tensv F0) (tensv (plane f0 f1 f2 f3 f4)) s) (M3.tens2 ((plane l0 l1 l2 l3 l4) * (plane f0 f1 f2 f3 f4))))))
       = lower (lamP (plane f0 f1 f2 f3 f4) (M3.ofMandel c [s 0, s 1, s 2, s 3]) (plane l0 l1 l2 l3 l4) (M3.ofTens (act (rowsOf D i5 i5) (M3.tens2 ((plane l0 l1 l2 l3 l4) * (plane f0 f1 f2 f3 f4)))))) := by
   have hc0 : c ≠ 0 := c_ne_zero hc h2
-  c23_rat0 hc
+  c23_rat0c hc
 
 /-- `C_TRUESDELL ← SPATIAL_MODULI` (2D): along every variation `δF = L F` the converted operator, applied to the
 rate of its kinematic variable, gives the rate of the Truesdell rate of the Cauchy stress that reproduces the same Lie derivative of
@@ -96,7 +96,7 @@ theorem N2_C_TRUESDELL__SPATIAL_MODULI (hc : c * c = 2) (h2 : (2:K) ≠ 0)
       = upper (lamSM (plane f0 f1 f2 f3 f4) (M3.ofMandel c [s 0, s 1, s 2, s 3]) (plane l0 l1 l2 l3 l4) (M3.ofMandel c (act (rowsOf D i4 i4) (M3.mandel2 c (symm (plane l0 l1 l2 l3 l4)))))) := by
   have hc0 : c ≠ 0 := c_ne_zero hc h2
   obtain ⟨h1, h2'⟩ := plane_det_ne hJ
-  c23_rat0 hc
+  c23_rat0c hc
 
 /-- `SPATIAL_MODULI ← C_TAU_JAUMANN` (2D): along every variation `δF = L F` the converted operator, applied to the
 rate of its kinematic variable, gives the rate of the Lie derivative of the Kirchhoff stress that reproduces the same Lie derivative of
@@ -106,6 +106,6 @@ theorem N2_SPATIAL_MODULI__C_TAU_JAUMANN (hc : c * c = 2) (h2 : (2:K) ≠ 0)
     upper (lamSM (plane f0 f1 f2 f3 f4) (M3.ofMandel c [s 0, s 1, s 2, s 3]) (plane l0 l1 l2 l3 l4) (M3.ofMandel c (act (Gen.N2_SPATIAL_MODULI__C_TAU_JAUMANN_r c c3 fn D (tensv F0) (tensv (plane f0 f1 f2 f3 f4)) s) (M3.mandel2 c (symm (plane l0 l1 l2 l3 l4))))))
       = upper (lamJ (plane f0 f1 f2 f3 f4) (M3.ofMandel c [s 0, s 1, s 2, s 3]) (plane l0 l1 l2 l3 l4) (M3.ofMandel c (act (rowsOf D i4 i4) (M3.mandel2 c (symm (plane l0 l1 l2 l3 l4)))))) := by
   have hc0 : c ≠ 0 := c_ne_zero hc h2
-  c23_rat0 hc
+  c23_rat0c hc
 
 end TfelVerif.C23.PropsN2a
